@@ -81,6 +81,17 @@ def sort_phase(run, tier, wd, binary):
     run.add_model_run("Ordering: stepwise = global formulation; export of all sequences up to %d participants" % mp, r)
     if not r.ok:
         raise vlib.Infra("MCOrdering failed: %s" % r.violated)
+    # ... and seeded LARGE participant sets (13-48: sort implementations switch algorithms with the length), all classes mixed
+    rng = random.Random(run.seed * 4099 + 12)
+    ords = [-1000000, -7, -1, 0, 0, 1, 2, 5, 1000000]
+    with open(os.path.join(sd, "cases.ndjson"), "a") as f:
+        for _ in range(400 if tier == "quick" else 6000):
+            n = rng.randint(13, 48)
+            parts = []
+            for _ in range(n):
+                c = rng.choice(["prio", "ord", "ord", "un", "mark"])
+                parts.append(dict(cls=c, ord=0 if c == "mark" else rng.choice(ords)))
+            f.write(json.dumps(dict(parts=parts)) + "\n")
     p = vlib.run_harness(binary, ["sort", "-in", "cases.ndjson", "-out", "sorted.ndjson"], cwd=sd)
     if p.returncode != 0:
         raise vlib.Infra("sort harness failed: " + p.stderr[-800:])
